@@ -5,7 +5,7 @@ import ast
 from typing import Dict, List, Optional, Set, Tuple
 
 from ..astutil import call_name, calls_in, kwarg, unparse, walk_shallow
-from ..cfg import CFG, LocalDefs, path_text
+from ..cfg import CFG, LocalDefs, expand_test, path_text
 from ..index import AnalysisError, ClassInfo, FuncInfo, Index
 from ..report import Ctx
 from .common import node_calls, nodes_calling
@@ -42,13 +42,14 @@ def r20_1(ctx: Ctx) -> None:
     ix = ctx.ix
     ctx.rule("R20.1", "no silently ignored / mis-keyed option")
     n = 0
+    _lds: Dict[int, LocalDefs] = {}
     for fn in ix.functions:
         if isinstance(fn.node, ast.Lambda):
             continue
         for node in ast.walk(fn.node):
             if not isinstance(node, ast.If):
                 continue
-            t = node.test
+            t = expand_test(_lds.setdefault(id(fn), LocalDefs(fn.node)), node.test)
             if not (isinstance(t, ast.Compare) and len(t.ops) == 1 and isinstance(t.ops[0], ast.In) and isinstance(t.left, ast.Constant)
                     and isinstance(t.left.value, str) and isinstance(t.comparators[0], (ast.Name, ast.Attribute, ast.Subscript, ast.Call))):
                 continue
